@@ -1182,11 +1182,14 @@ class PDFCIDFont(PDFFont):
             self.fontfile = stream_value(descriptor.get("FontFile2"))
             ttf = TrueTypeFont(self.basefont, BytesIO(self.fontfile.get_data()))
         self.unicode_map: Optional[UnicodeMap] = None
+        # What applies to the codes that a ToUnicode stream does not map.
+        self.fallback_unicode_map: Optional[UnicodeMap] = None
         if "ToUnicode" in spec:
             if isinstance(spec["ToUnicode"], PDFStream):
                 strm = stream_value(spec["ToUnicode"])
                 self.unicode_map = FileUnicodeMap()
                 CMapParser(self.unicode_map, BytesIO(strm.get_data())).run()
+                self.fallback_unicode_map = self._get_default_unicode_map(ttf)
             else:
                 cmap_name = literal_name(spec["ToUnicode"])
                 encoding = literal_name(spec["Encoding"])
@@ -1196,20 +1199,8 @@ class PDFCIDFont(PDFFont):
                     or "Identity" in encoding
                 ):
                     self.unicode_map = IdentityUnicodeMap()
-        elif self.cidcoding in ("Adobe-Identity", "Adobe-UCS"):
-            if ttf:
-                try:
-                    self.unicode_map = ttf.create_unicode_map()
-                except TrueTypeFont.CMapNotFound:
-                    pass
         else:
-            try:
-                self.unicode_map = CMapDB.get_unicode_map(
-                    self.cidcoding,
-                    self.cmap.is_vertical(),
-                )
-            except CMapDB.CMapNotFound:
-                pass
+            self.unicode_map = self._get_default_unicode_map(ttf)
 
         self.vertical = self.cmap.is_vertical()
         if self.vertical:
@@ -1233,6 +1224,24 @@ class PDFCIDFont(PDFFont):
             widths = get_widths(list_value(spec.get("W", [])))
             default_width = spec.get("DW", 1000)
         PDFFont.__init__(self, descriptor, widths, default_width=default_width)
+
+    def _get_default_unicode_map(
+        self, ttf: Optional[TrueTypeFont]
+    ) -> Optional[UnicodeMap]:
+        """The Unicode map given by the embedded TrueType font's cmap or by the
+        character collection, i.e. without looking at ToUnicode."""
+        if self.cidcoding in ("Adobe-Identity", "Adobe-UCS"):
+            if ttf:
+                try:
+                    return ttf.create_unicode_map()
+                except TrueTypeFont.CMapNotFound:
+                    pass
+        else:
+            try:
+                return CMapDB.get_unicode_map(self.cidcoding, self.cmap.is_vertical())
+            except CMapDB.CMapNotFound:
+                pass
+        return None
 
     def get_cmap_from_spec(self, spec: Mapping[str, Any], strict: bool) -> CMapBase:
         """Get cmap from font specification
@@ -1298,6 +1307,11 @@ class PDFCIDFont(PDFFont):
         try:
             if not self.unicode_map:
                 raise PDFKeyError(cid)
-            return self.unicode_map.get_unichr(cid)
+            try:
+                return self.unicode_map.get_unichr(cid)
+            except KeyError:
+                if not self.fallback_unicode_map:
+                    raise
+                return self.fallback_unicode_map.get_unichr(cid)
         except KeyError:
             raise PDFUnicodeNotDefined(self.cidcoding, cid)
